@@ -49,6 +49,15 @@ Inductive c13case :=
 (* [sent]: the x-request-id values the CLIENT put on the request *)
 | CLive (cls : N) (expect_status status : N) (xrid : list str) (own : list str)
         (sent : list str) (saw : option str) (body_rid : option str)
+(* the method family (GET HEAD OPTIONS PATCH DELETE PURGE = 0..5): [cls] 0 a
+   handler returning an HttpError with [attached] headers, 1 a 404, 2 a 405
+   ([attached] = the Allow header); [headers]: every response header but
+   date and content-length, grouped by name; [body]: None for HEAD (only the
+   head is read), else the parsed body; [cl_expect]: the length of the body
+   the error has for a non-HEAD request; [ecode]/[emsg]: its code and message *)
+| CLiveM (meth cls expect_status status : N) (headers attached : hmap) (sent : list str)
+         (body : option obody) (cl_obs : option N) (cl_expect : N)
+         (ecode : option str) (emsg : str)
 (* [ids]: the ids of all responses of a batch, [supplied]: every client-sent
    value that reads as a UUID in any spelling; both as sorted 128-bit numbers *)
 | CUnique (n : N) (ids : list N) (supplied : list N).
@@ -298,6 +307,59 @@ Definition judge_live (cls expect_status status : N) (xrid own sent : list str)
       end
   end.
 
+Definition judge_livem (meth cls expect_status status : N) (headers attached : hmap)
+           (sent : list str) (body : option obody) (cl_obs : option N) (cl_expect : N)
+           (ecode : option str) (emsg : str) : N :=
+  if negb ((meth <=? 5) && (cls <=? 2) && hm_wf attached) then V_MALFORMED else
+  match hm_get headers H_REQUEST_ID with
+  | None => V_VIOLATION
+  | Some xrid =>
+      match last_opt xrid with
+      | None => V_VIOLATION
+      | Some id =>
+          let spec :=
+            (status =? expect_status) &&
+            (* one fresh id, the server's own *)
+            strs_eqb xrid [id] && uuid_shaped id &&
+            negb (existsb (fun s => str_eqb (uuid_key id) (uuid_key s)) sent) &&
+            (* equal to what the handler saw *)
+            (if cls =? 0 then option_eqb strs_eqb (hm_get headers H_SAW) (Some [id]) else true) &&
+            (* every attached header, with all its values *)
+            forallb (fun e => option_eqb strs_eqb (hm_get headers (fst e)) (Some (snd e))) attached &&
+            (* the body headers: as for the body this error has, HEAD or not *)
+            option_eqb strs_eqb (hm_get headers H_CONTENT_TYPE) (Some [CT_JSON]) &&
+            option_eqb N.eqb cl_obs (Some cl_expect) &&
+            (* the body itself, where one is sent *)
+            (if meth =? 1
+             then match body with None => true | Some _ => false end
+             else match body with
+                  | Some (OBody wf rid code msg) =>
+                      wf && str_eqb rid id && ostr_eqb code ecode && str_eqb msg emsg
+                  | None => false
+                  end) in
+          if negb spec then V_VIOLATION else
+          (* the model: the error through the wrapper *)
+          let own := if cls =? 0 then (H_SAW, [id]) :: attached else attached in
+          let e := mkErr status ecode emsg [] (Some own) in
+          let rq := if cls =? 0
+                    then mkRq None None
+                           (fun i => Err (HEDropshot
+                              (mkErr status ecode emsg [] (Some ((H_SAW, [i]) :: attached)))))
+                    else mkRq None (Some e) (fun _ => Err (HEDropshot e)) in
+          match handle_wrap rq id with
+          | Ok r =>
+              if (r_status r =? status) && hm_wf headers && hm_wf (r_headers r) &&
+                 hm_equiv headers (r_headers r) &&
+                 match r_body r with
+                 | BErrJson rid code msg => str_eqb rid id && ostr_eqb code ecode && str_eqb msg emsg
+                 | _ => false
+                 end
+              then V_AGREE else V_DIVERGE
+          | Err _ => V_DIVERGE
+          end
+      end
+  end.
+
 (* ----- uniqueness: the ids of a run, as 128-bit numbers, sorted ----- *)
 
 Fixpoint strictly_increasing (l : list N) : bool :=
@@ -329,6 +391,8 @@ Definition judge (c : c13case) : N :=
   | CCtor k hdrs id txt o => judge_ctor k hdrs id txt o
   | CLive cls expect_status status xrid own sent saw body_rid =>
       judge_live cls expect_status status xrid own sent saw body_rid
+  | CLiveM meth cls expect_status status headers attached sent body cl_obs cl_expect ecode emsg =>
+      judge_livem meth cls expect_status status headers attached sent body cl_obs cl_expect ecode emsg
   | CUnique n ids supplied =>
       (* one id per request, pairwise different, none of them client-supplied *)
       if (N.of_nat (List.length ids) =? n) && strictly_increasing ids &&
